@@ -183,7 +183,16 @@ def gen(rng, cfg=None):
                 items.append({'k': 'pseudo', 'm': m, 'ops': []})
         elif k == 'li':
             v = rng.choice(LI_VALUES) if rng.random() < 0.7 else rng.getrandbits(32)
-            items.append({'k': 'pseudo', 'm': 'li', 'ops': [R(rng), {'i': v}]})
+            if rng.random() < 0.25:
+                # the value as a derived quantity (`1 << 12`, `4 * 1024`, `8200 - 8`): several tokens, the first of them often small
+                from . import exprs
+                txt = exprs.spell_value(rng, v, spaces=True)
+                if v and v % 2 == 0 and rng.random() < 0.5:
+                    low = (v & -v).bit_length() - 1
+                    txt = '%d << %d' % (v >> low, low)
+                items.append({'k': 'pseudo', 'm': 'li', 'ops': [R(rng), {'x': [txt, v]}]})
+            else:
+                items.append({'k': 'pseudo', 'm': 'li', 'ops': [R(rng), {'i': v}]})
         elif k == 'xfer':
             kind = rng.choice(['b', 'b', 'pb1', 'pb2', 'jal', 'j', 'jalp', 'call', 'tail', 'c.j', 'c.jal', 'c.b', 'bz'])
             items.append({'k': 'xfer', 'kind': kind, 'max': 8 if kind in ('call', 'tail') else (2 if kind.startswith('c.') else 4)})
